@@ -230,7 +230,13 @@ def run(ctx):
                 if r["orig"][0] == "error" and r["orig"][1][1] == name:
                     ctx.count("grounding-error-as-original")
                     continue
-                fails = [("%s: %s raised at %s" % (tag, name, site), dict(kind="export-exception", exc=name, site=site))]
+                xs = dict(kind="export-exception", exc=name, site=site)
+                if name == "NegativeCycle":
+                    # the export grounds the program with its own options; a false NegativeCycle there is the engine's
+                    # known finding F1 when the program has its shape and the specification sees no negative cycle
+                    xs["export_spec_negcycle"] = bool(sem["negcycle"])
+                    xs["export_f1_shape"] = bool(spine.f1_condition(P))
+                fails = [("%s: %s raised at %s" % (tag, name, site), xs)]
             else:
                 ctx.case(src + "|" + tn, nontrivial=":-" in (text or ""))
                 ctx.count(tn)
